@@ -87,6 +87,7 @@ func init() {
 			sb.WriteString(strings.Repeat("}]", dp/2))
 			e.emit("rvc %s", hs([]byte(sb.String())))
 		}
+		readerDepthHistories(e, r, thorough, 6)
 		// typed entry points on every token class (null rejected)
 		for _, tk := range []string{"null", " null", "true", "1", `"s"`, "[]", "{}", "[null]", `{"a":null}`, "", " ", "x", "nul", "[", "{", `{"a"}`, "[1,]", `{"a":1,}`} {
 			for _, op := range []string{"rv", "ro", "ra", "rvc", "roc", "rac", "rva", "roa", "raa"} {
@@ -171,20 +172,7 @@ func init() {
 		deepOK := hs(nest("[", "]", 3000, `{"a":"b"}`))
 		deepBad := hs(nest("[", "]", 10001, "1"))
 		deepN := 0
-		// entry points mixed on one reader, then documents exactly at / just over the depth limit
-		small := []string{"[[[]]]", `{"a":{"b":{}}}`, `[{"a":[{}]}]`, "1", `"s"`}
-		lims := []string{hs(nest("[", "]", 10000, "")), hs(nest("[", "]", 10001, "")), hs(nest(`{"a":`, "}", 10000, "{}")), hs(nest(`[{"a":`, "}]", 5000, "1")), hs(nest(`[{"a":`, "}]", 5001, "1"))}
-		for _, op1 := range []string{"rv", "ro", "ra"} {
-			for _, op2 := range []string{"rv", "ro", "ra"} {
-				for _, sm := range small {
-					for _, lm := range lims {
-						if r.chance(1, 3) || thorough {
-							e.emit("rhist %s:%s %s:%s %s:%s", op1, hs([]byte(sm)), op2, lm, op1, hs([]byte(sm)))
-						}
-					}
-				}
-			}
-		}
+		readerDepthHistories(e, r, thorough, 3)
 		for _, bad := range []string{"[1,", `{"a":`, "[[[", `{"a":[1,{"b":`, "[1e999]", `{"k":tru}`} {
 			for _, op := range []string{"ra", "ro", "rv"} {
 				for _, nl := range []string{"null", " \t\r\nnull", "null,"} {
@@ -257,6 +245,25 @@ func init() {
 				calls = append(calls, strings.Join(sz, ","))
 			}
 			e.emit("hint %s", strings.Join(calls, " "))
+		}
+	}
+}
+
+// readerDepthHistories: entry points mixed on one reader, then documents exactly at / just over the
+// depth limit (a reader whose nesting count depends on what it was used for before accepts 10,001
+// levels or refuses 10,000).  Used by C15 (reuse) and C03 (the depth clause of the tree property).
+func readerDepthHistories(e *emitter, r *rng, thorough bool, oneIn int) {
+	small := []string{"[[[]]]", `{"a":{"b":{}}}`, `[{"a":[{}]}]`, "1", `"s"`}
+	lims := []string{hs(nest("[", "]", 10000, "")), hs(nest("[", "]", 10001, "")), hs(nest(`{"a":`, "}", 10000, "{}")), hs(nest(`[{"a":`, "}]", 5000, "1")), hs(nest(`[{"a":`, "}]", 5001, "1"))}
+	for _, op1 := range []string{"rv", "ro", "ra"} {
+		for _, op2 := range []string{"rv", "ro", "ra"} {
+			for _, sm := range small {
+				for _, lm := range lims {
+					if r.chance(1, oneIn) || thorough {
+						e.emit("rhist %s:%s %s:%s %s:%s", op1, hs([]byte(sm)), op2, lm, op1, hs([]byte(sm)))
+					}
+				}
+			}
 		}
 	}
 }
